@@ -12,6 +12,7 @@ type Result struct {
 	Ball        *rt.Term // uncaught ball (nil if none)
 	Budget      bool     // inference or work budget exceeded: the case is to be discarded
 	STO         bool     // a unification subject to occurs check was performed: discard
+	VarOrder    bool     // a setof sort hinged on the order of two distinct variables: discard
 	Unsupported string   // the program used something the reference does not model: discard
 	Output      string
 	Stats       Stats
@@ -24,6 +25,8 @@ func (r *Result) Discard() string {
 		return "unsupported:" + r.Unsupported
 	case r.STO:
 		return "sto"
+	case r.VarOrder:
+		return "variable_order_dependent_sort"
 	case r.Budget:
 		return "budget"
 	}
@@ -155,6 +158,7 @@ func (m *Machine) Solve(query *rt.Term, vars []int64, max int) (res Result) {
 		res.Answers = append(res.Answers, rt.Canon(tuple))
 	}
 	res.STO = m.sto
+	res.VarOrder = m.VarOrder
 	res.Unsupported = m.Unsupported
 	res.Output = m.out.String()[startOut:]
 	res.Stats = m.Stats
